@@ -1,7 +1,11 @@
 (* C06 for SVRPEnv -- check_solution_validity against the problem definition. Statements only.
-   The checker looks at the customers BEFORE each depot visit only: completeness holds, soundness holds for the routes
-   closed by a depot visit; the refutation exhibits an accepted solution whose last route violates the skill
-   requirement.  For the code as it is, more depot visits than technicians raise an IndexError (second refutation). *)
+   [fx = true] is the code in /repo (fixes 9849631 + 335bbfb: technician index clamped, no customer after m or more depot
+   visits), [fx = false] the code before them; the correspondence runs at [svrp_repaired].
+   The checker looks at the customers BEFORE each depot visit only: completeness holds (for fx = true without any
+   condition, padded lists included), soundness holds for the routes closed by a depot visit -- exactly the
+   specification's condition, including "a segment after m or more depot visits is empty"; the refutation exhibits an
+   accepted solution whose LAST route violates the skill requirement (open finding).  Before the fixes, more depot
+   visits than technicians raised an IndexError (second refutation, fx = false). *)
 From Coq Require Import ZArith List Bool.
 From RL4CO Require Import Base.Num Base.EnvSig Spec.Routes Env.SVRP Env.SVRPProofs.
 Import ListNotations.
@@ -25,23 +29,23 @@ Theorem C06_svrp_checker_accepts_mask_made :
 Proof. exact svrp_checker_accepts_mask_made. Qed.
 Print Assumptions C06_svrp_checker_accepts_mask_made.
 
-(* accepted => every customer exactly once, only existing nodes, and every route CLOSED by a depot visit within the
-   skill of the technician the code indexes for it ([tidx]: k itself; clamped to m - 1 for the repaired behaviour) *)
+(* accepted => every customer exactly once, only existing nodes, and every route CLOSED by a depot visit (q-th segment, a
+   later segment exists) satisfies the specification: if it is non-empty, q is below the number of technicians -- a
+   segment after m or more depot visits must be empty -- and every customer on it requires at most technician q's skill *)
 Theorem C06_svrp_checker_sound_closed_routes :
   forall (fx : bool) (i : svrp_inst) (acts : list nat),
     svrp_checker fx i acts = true ->
     (forall j, (1 <= j <= sn_of i)%nat -> occ j acts = 1%nat) /\
     (forall a, In a acts -> (a <= sn_of i)%nat) /\
     (forall q r, nth_error (routes acts) q = Some r -> (S q < length (routes acts))%nat ->
-       exists t, tidx fx (sm_of i) q = Some t /\ Forall (fun j => sskill i j <= tskill i t) r).
+       (r <> [] -> (q < sm_of i)%nat) /\ Forall (fun j => sskill i j <= tskill i q) r).
 Proof. exact svrp_checker_sound_closed. Qed.
 Print Assumptions C06_svrp_checker_sound_closed_routes.
 
-(* accepted, ending with a depot visit, at most m depot visits => feasible *)
+(* accepted and ending with a depot visit (any amount of padding) => feasible *)
 Theorem C06_svrp_checker_sound_if_closed :
   forall (fx : bool) (i : svrp_inst) (acts : list nat),
-    svrp_checker fx i acts = true -> last (routes acts) [] = [] -> (occ 0 acts <= sm_of i)%nat ->
-    svrp_feasible i acts.
+    svrp_checker fx i acts = true -> last (routes acts) [] = [] -> svrp_feasible i acts.
 Proof. exact svrp_checker_sound_if_closed. Qed.
 Print Assumptions C06_svrp_checker_sound_if_closed.
 
@@ -60,10 +64,18 @@ Print Assumptions C06_svrp_checker_rejects_duplicate.
 Theorem C06_svrp_checker_rejects_unmet_skill_in_closed_route :
   forall (fx : bool) (i : svrp_inst) (acts : list nat) (q : nat) (r : list nat) (j : nat),
     nth_error (routes acts) q = Some r -> (S q < length (routes acts))%nat -> In j r ->
-    (forall t, tidx fx (sm_of i) q = Some t -> tskill i t < sskill i j) ->
+    tskill i q < sskill i j ->
     svrp_checker fx i acts = false.
 Proof. exact svrp_checker_rejects_unmet_skill. Qed.
 Print Assumptions C06_svrp_checker_rejects_unmet_skill_in_closed_route.
+
+(* customers in a closed route that starts after as many depot visits as there are technicians (or more): rejected *)
+Theorem C06_svrp_checker_rejects_route_after_last_technician :
+  forall (fx : bool) (i : svrp_inst) (acts : list nat) (q : nat) (r : list nat),
+    nth_error (routes acts) q = Some r -> (S q < length (routes acts))%nat -> r <> [] -> (sm_of i <= q)%nat ->
+    svrp_checker fx i acts = false.
+Proof. exact svrp_checker_rejects_route_after_last_technician. Qed.
+Print Assumptions C06_svrp_checker_rejects_route_after_last_technician.
 
 (* the full soundness statement is false: the customers after the last depot visit are never checked *)
 Theorem C06_svrp_checker_sound_refuted :
@@ -80,6 +92,9 @@ Print Assumptions C06_svrp_checker_complete_refuted.
 
 Example C06_svrp_nonvacuous :
   let i := {| techs := [2; 5; 9]; skills := [2; 5; 6]; tcosts := [1; 2; 3]; sdist := [] |} in
-  svrp_checker false i [1; 0; 2; 0; 3]%nat = true /\ svrp_checker false i [2; 0; 1; 0; 3]%nat = false /\
-  svrp_checker false i [1; 0; 2; 0]%nat = false /\ svrp_checker false i [1; 0; 3; 2]%nat = true.
+  svrp_checker true i [1; 0; 2; 0; 3]%nat = true /\ svrp_checker true i [2; 0; 1; 0; 3]%nat = false /\
+  svrp_checker true i [1; 0; 2; 0]%nat = false /\ svrp_checker true i [1; 0; 3; 2]%nat = true /\
+  (* padding beyond the last technician is accepted, customers there are not *)
+  svrp_checker true i [1; 0; 2; 0; 3; 0; 0; 0; 0]%nat = true /\ svrp_checker true i [0; 0; 0; 1; 2; 3; 0]%nat = false /\
+  svrp_checker false i [1; 0; 2; 0; 3]%nat = true /\ svrp_checker false i [1; 0; 2; 0; 3; 0; 0]%nat = false.
 Proof. vm_compute. repeat split; reflexivity. Qed.
